@@ -31,10 +31,10 @@ def pair_obligations(eng, short, claims, max_pairs=400, converse=None):
             pc = list(pc1) + [_rename(p, "~2") for p in pc2] + [f"(= {r1.s} {_rename(r2.s, '~2')})"]
 
             def a(name, env=e1):
-                return env.env[name].s
+                return (env.env[name] if name in env.env else env.ghost[name]).s
 
             def b(name, env=e2):
-                return _rename(env.env[name].s, "~2")
+                return _rename((env.env[name] if name in env.env else env.ghost[name]).s, "~2")
             consts = {}
             for nm, so in c1.decls:
                 consts.setdefault(sort_smt(so), []).append(nm)
